@@ -1,6 +1,80 @@
 import Driver.Util
-open Lean
+import DoitModel.Model.Clean
+open Lean DoitModel.Clean
 namespace Driver.Clean
-/-- handler for requests with `"model": "clean"` (stub: filled in when the model exists) -/
-def handle (_ : Json) : Json := Driver.err "model not implemented"
+/-! requests `{"model":"clean", "tasks":[{"label":s,"task_dep":[n],"setup":[n],"subtask_of":n|null,"targets":[s],
+      "kind":"none"|"targets"|"act"|"actdry"}], "pos":[s], "defaults":null|[s], "cleandep":b, "cleanall":b,
+      "dryrun":b, "forget":b, "files":[s], "dirs":[s], "db":[n],
+      "obs": {"order":[n], "files":[s], "dirs":[s], "db":[n]} (optional: what the implementation did)}`
+    answer: `{"outcome":"ok"|"not-a-task"|"key-error", "order":[n], "events":[[tag,t,...]], "files","dirs","db",
+      "oof":b, "wf":b, "acyclic":b, "with_deps":b, "base":[n], "monitor":{"order":b,"effects":b}}`
+    `files`/`dirs`/`db` are answered sorted. -/
+
+def chars (s : String) : List Char := s.toList
+def str (p : List Char) : String := String.ofList p
+
+def parseKind (s : String) : CleanKind :=
+  match s with
+  | "targets" => .targets
+  | "act" => .action false
+  | "actdry" => .action true
+  | _ => .nothing
+
+def parseTask (j : Json) : Task :=
+  { label := chars (jstr j "label"),
+    taskDep := jnats j "task_dep",
+    setup := jnats j "setup",
+    subtaskOf := (j.getObjValAs? Nat "subtask_of").toOption,
+    targets := (jstrs j "targets").map chars,
+    kind := parseKind (jstr j "kind") }
+
+def parseReq (j : Json) : Req :=
+  { pos := (jstrs j "pos").map chars,
+    defaults := match j.getObjVal? "defaults" with
+      | .ok (.arr a) => some (a.toList.map fun x => chars (asStr x))
+      | _ => none,
+    cleandep := jbool j "cleandep", cleanall := jbool j "cleanall",
+    dryrun := jbool j "dryrun", forget := jbool j "forget" }
+
+def parseWorld (j : Json) : World :=
+  { files := (jstrs j "files").map chars, dirs := (jstrs j "dirs").map chars, db := jnats j "db" }
+
+def sortStrs (xs : List String) : List String := (xs.toArray.qsort (· < ·)).toList
+def sortNats (xs : List Nat) : List Nat := (xs.toArray.qsort (· < ·)).toList
+
+def evJson : Ev → Json
+  | .executing t => mkArr [Json.str "executing", toJson t]
+  | .ran t d => mkArr [Json.str "ran", toJson t, Json.bool d]
+  | .rmFile t p => mkArr [Json.str "rm-file", toJson t, Json.str (str p)]
+  | .rmDir t p => mkArr [Json.str "rm-dir", toJson t, Json.str (str p)]
+  | .notEmpty t p => mkArr [Json.str "not-empty", toJson t, Json.str (str p)]
+
+def handle (j : Json) : Json :=
+  let tbl : Table := (jarr j "tasks").map parseTask
+  let r := parseReq j
+  let w := parseWorld j
+  let common : List (String × Json) :=
+    [("wf", Json.bool (wfB tbl)), ("acyclic", Json.bool (acyclicB tbl)), ("with_deps", Json.bool (withDeps r))]
+  match cleanList tbl r, run tbl r w with
+  | .ok base, .ok res =>
+    let mon : List (String × Json) :=
+      if jhas j "obs" then
+        let o := jobj j "obs"
+        let w' := parseWorld o
+        -- the declarative clean set for the effect monitor: computed by `closeN`, not by the traversal
+        let full := declSet tbl r base
+        [("monitor", Json.mkObj [("order", Json.bool (monitorOrder tbl r base w (jnats o "order"))),
+                                 ("effects", Json.bool (monitorEffects tbl r full w w'))])]
+      else []
+    Json.mkObj ([("outcome", Json.str "ok"), ("order", ofNats res.order),
+      ("events", mkArr (res.events.map evJson)),
+      ("files", ofStrs (sortStrs (res.world.files.map str))),
+      ("dirs", ofStrs (sortStrs (res.world.dirs.map str))),
+      ("db", ofNats (sortNats res.world.db)),
+      ("oof", Json.bool res.oof), ("base", ofNats base)] ++ common ++ mon)
+  | .error .notATask, _ => Json.mkObj ([("outcome", Json.str "not-a-task")] ++ common)
+  | .error .keyError, _ => Json.mkObj ([("outcome", Json.str "key-error")] ++ common)
+  | _, .error .notATask => Json.mkObj ([("outcome", Json.str "not-a-task")] ++ common)
+  | _, .error .keyError => Json.mkObj ([("outcome", Json.str "key-error")] ++ common)
+
 end Driver.Clean
